@@ -4,13 +4,15 @@ from evalutil import *
 
 ID = "C05"
 LEVEL = "proof"
-MODULES = ["H3Proofs.Props.C05", "H3Proofs.Props.C05Neighbor", "H3Proofs.Props.C05Bfs", "H3Proofs.Props.C05Symm"]
+MODULES = ["H3Proofs.Props.C05", "H3Proofs.Props.C05Neighbor", "H3Proofs.Props.C05Bfs", "H3Proofs.Props.C05Symm", "H3Proofs.Props.C05Array", "H3Proofs.Props.C05Mode", "H3Proofs.Props.C05Valid", "H3Proofs.Props.C05Valid2"]
 THEOREMS = "auto"
 ASSUMPTIONS = ["hand-written model of h3NeighborRotations, _gridDiskDistancesInternal (array-faithful), the unsafe "
                "ring walks, gridRingUnsafe and areNeighborCells, tied to the code by exact correspondence (slot "
                "layout and ring order included)"]
-NOT_PROVED = ["traversal inside/next to the 12 pentagon base cells and across base-cell boundaries (empirical rotation tables): symmetry / distinctness of neighbours are theorems for steps that stay inside a hexagon base cell, at every resolution (C05Symm), and are exercised by correspondence + evaluator elsewhere", "the array-faithful safe disk (open addressing) equals the association-list disk of the BFS theorem: both compared with C"]
-EXPLANATION = ("size formula / validation / base-cell table theorems; Theorem A (digit tables = aperture-7 addition), uniqueness of digit expansions, symmetric and pairwise distinct neighbours inside hexagon base cells at every resolution; the safe disk algorithm is BFS for any neighbour function; correspondence of "
+NOT_PROVED = ["symmetry / distinctness / count (six, five) of neighbours inside and next to the 12 pentagon base cells and across base-cell boundaries (empirical rotation tables): theorems only for steps that stay inside a hexagon base cell, at every resolution (C05Symm); elsewhere exercised by correspondence + evaluator",
+              "termination-with-success of the safe disk (that its probing never reports E_FAILED): the BFS theorem is partial correctness (whenever gridDiskDistancesSafe returns, its buffers are the BFS disk)",
+              "the unsafe ring walks (gridDiskDistancesUnsafe, gridRingUnsafe) = the disk in ring order whenever they succeed: correspondence + evaluator only (finding F7 lives here)"]
+EXPLANATION = ("every successful neighbour step, from any cell, in any direction, at any resolution, through every pentagon special case and across base-cell boundaries, returns a valid cell of the same resolution (C05Valid2.h3NeighborRotations_valid, full layout incl. the pentagon clause); the array-faithful gridDiskDistancesSafe (open-addressing slots, in-place distance updates) is breadth-first search over that neighbour function for every origin with the cell mode, exact distances and one slot per cell (C05Mode.gridDiskDistancesSafe_bfs, partial correctness); everything it writes is a valid cell of the origin's resolution (walk_valid); size formula / validation / base-cell table theorems; Theorem A (digit tables = aperture-7 addition), uniqueness of digit expansions, symmetric and pairwise distinct neighbours inside hexagon base cells at every resolution; the safe disk algorithm is BFS for any neighbour function; correspondence of "
                "all seven disk/ring functions; the evaluator checks gridDisk k against a breadth-first search over "
                "the library's own k=1 disks, symmetry, areNeighborCells, and unsafe = safe-or-error")
 
